@@ -77,6 +77,7 @@ type eagrCfg struct {
 	virtualTime  bool         // deadlines are compared with a virtual clock (DFS); false: Since()=0
 	ordered      bool         // delivery order (sequence numbers) is part of the canonical state (lock-step explorer)
 	trackValues  bool         // keep the set of proposal values seen on the network (adversary alphabet)
+	trackVotes   bool         // C02(i): remember every vote released by each account (ghost state, part of the key)
 }
 
 type eagrLoopItem struct {
@@ -108,6 +109,10 @@ type eagrNode struct {
 
 	crashes int
 
+	// ghost state for C02(i): every vote this node's account released through the loopback, by
+	// (round, period, step). Survives crash-restarts (it is the observer's memory, not the node's).
+	released map[eagrRPS]proposalValue
+
 	keyOK  bool // cached canonical key of this node (nodes are immutable once stored in a state)
 	keySum [32]byte
 }
@@ -135,6 +140,13 @@ func (d eagrDevs) total() int {
 		t += int(x)
 	}
 	return t
+}
+
+// eagrRPS identifies a voting slot of an account.
+type eagrRPS struct {
+	r basics.Round
+	p period
+	s step
 }
 
 type eagrFlight struct {
@@ -210,6 +222,7 @@ type eagrOut struct {
 	panicMsg  string
 	conflicts []string
 	diffs     []string // C07 differential mismatches
+	equivoc   []string // C02(i): an account released two values for one (round, period, step)
 	subs      []eagrSub
 	trace     bool
 }
@@ -251,6 +264,12 @@ func (n *eagrNode) clone() *eagrNode {
 	c.p, c.rr = eagrCopyState(&n.p, &n.rr)
 	c.loop = append([]eagrLoopItem(nil), n.loop...)
 	c.ver = append([]cryptoAction(nil), n.ver...)
+	if n.released != nil {
+		c.released = make(map[eagrRPS]proposalValue, len(n.released))
+		for k, v := range n.released {
+			c.released[k] = v
+		}
+	}
 	c.hist = make(map[basics.Round]int64, len(n.hist))
 	for k, v := range n.hist {
 		c.hist[k] = v
@@ -462,8 +481,20 @@ func (n *eagrNode) loopStep(s *eagrSys, out *eagrOut) {
 		return
 	}
 	if it.own {
-		out.released = append(out.released, it.ev.(messageEvent).Input.UnauthenticatedVote)
+		uv := it.ev.(messageEvent).Input.UnauthenticatedVote
+		out.released = append(out.released, uv)
 		s.stats.released++
+		if s.cfg.trackVotes {
+			if n.released == nil {
+				n.released = map[eagrRPS]proposalValue{}
+			}
+			k := eagrRPS{uv.R.Round, uv.R.Period, uv.R.Step}
+			if old, ok := n.released[k]; ok && old != uv.R.Proposal {
+				out.equivoc = append(out.equivoc, fmt.Sprintf("account a%d (node %d) released a vote for %s at (round %d, period %d, step %d) after having released a vote for %s for the same slot (crash-restarts of this node so far: %d)",
+					n.id, n.id, eagrPV(uv.R.Proposal), uv.R.Round, uv.R.Period, uv.R.Step, eagrPV(old), n.crashes))
+			}
+			n.released[k] = uv.R.Proposal
+		}
 	}
 	n.submit(s, it.ev, out)
 }
@@ -880,6 +911,37 @@ func (n *eagrNode) key0(b []byte) []byte {
 		fl |= 2
 	}
 	b = append(b, fl, byte(len(n.loop)), byte(len(n.ver)), byte(n.crashes))
+	for _, it := range n.loop {
+		// pending loopback items (only present when the loopback queue is not atomic)
+		if it.persist {
+			d := crypto.Hash(it.raw)
+			b = append(b, 'p')
+			b = append(b, d[:8]...)
+		} else {
+			b = append(b, 'e')
+			b = append(b, eagrEvStr(it.ev)...)
+		}
+	}
+	if len(n.released) > 0 {
+		var ks []eagrRPS
+		for k := range n.released {
+			ks = append(ks, k)
+		}
+		sort.Slice(ks, func(i, j int) bool {
+			if ks[i].r != ks[j].r {
+				return ks[i].r < ks[j].r
+			}
+			if ks[i].p != ks[j].p {
+				return ks[i].p < ks[j].p
+			}
+			return ks[i].s < ks[j].s
+		})
+		for _, k := range ks {
+			v := n.released[k]
+			b = binary.LittleEndian.AppendUint64(b, uint64(k.r)<<32|uint64(k.p)<<16|uint64(k.s))
+			b = append(b, v.BlockDigest[:8]...)
+		}
+	}
 	b = n.extras(b)
 	return b
 }
